@@ -170,18 +170,20 @@ def Cell.reprHash (H : List UInt8 → List UInt8) (c : Cell) : Outcome (List UIn
 
 namespace Table
 
-/-- hashing over a table, last row first; each row is computed once (linear on DAGs). A ref that does not point to a
-later row yields `err` (the table is not topologically ordered). -/
-def infos (H : List UInt8 → List UInt8) (t : Table) : Array (Outcome HashInfo) := Id.run do
-  let n := t.size
-  let mut res : Array (Outcome HashInfo) := Array.replicate n (.err "uncomputed")
-  for k in [0:n] do
-    let i := n - 1 - k
-    let row := t[i]!
-    let kids : Outcome (List HashInfo) := row.refs.mapM (fun r =>
-      if r > i ∧ r < n then res[r]! else .err "bad ref index")
-    res := res.set! i (kids.bind fun cs => computeInfo H row.ty row.mask row.bits (parsedBuf row.bits) cs)
-  return res
+/-- the result for row `i` of a table with `n` rows, given the results of the rows after it: `done[k]` is the result of
+row `n-1-k`. A ref that does not point to a later row yields `err` (the table is not topologically ordered). -/
+def infoRow (H : List UInt8 → List UInt8) (n i : Nat) (row : CellRow) (done : Array (Outcome HashInfo)) :
+    Outcome HashInfo :=
+  let kids : Outcome (List HashInfo) := row.refs.mapM (fun r =>
+    if r > i ∧ r < n then done[n - 1 - r]! else .err "bad ref index")
+  kids.bind fun cs => computeInfo H row.ty row.mask row.bits (parsedBuf row.bits) cs
+
+/-- results of the rows of a table from the last one backwards (`result[k]` = row `n-1-k`) -/
+def infosRev (H : List UInt8 → List UInt8) (t : Table) : Array (Outcome HashInfo) :=
+  t.foldr (fun row done => done.push (infoRow H t.size (t.size - 1 - done.size) row done)) #[]
+
+/-- hashing over a table, last row first; each row is computed once (linear on DAGs). -/
+def infos (H : List UInt8 → List UInt8) (t : Table) : Array (Outcome HashInfo) := (infosRev H t).reverse
 
 /-- unfold row `i` into a tree; `fuel` bounds the depth (rows only refer to later rows, so `t.size` suffices) -/
 def unfold (t : Table) : Nat → Nat → Option Cell
